@@ -237,13 +237,19 @@ class Resolver:
 class FunctionGuards:
     """guard atoms per CFG node of one function (helper calls inlined, depth-limited)"""
 
-    def __init__(self, fn, resolver, depth=0):
+    def __init__(self, fn, resolver, depth=0, entry_atoms=(), entry_direct=None):
+        """entry_atoms / entry_direct: facts every caller guarantees at its call of this function, already
+        expressed in this function's parameter names (see caller_context)"""
         self.fn = fn
         self.res = resolver
         self.depth = depth
         self.cfg = cfgm.CFG(fn)
         self.atoms = {}  # node id -> [(expr, polarity)]
         self.direct = {}  # node id -> {subject: kinds}
+        if entry_atoms:
+            self.atoms[self.cfg.entry.id] = list(entry_atoms)
+        if entry_direct:
+            self.direct[self.cfg.entry.id] = {k: set(v) for k, v in entry_direct.items()}
         for nd in self.cfg.nodes:
             if nd.ast is None:
                 continue
@@ -254,6 +260,25 @@ class FunctionGuards:
                 self.direct[nd.id] = di
 
     # -- summaries -----------------------------------------------------------
+    def atoms_at(self, node_id):
+        """atoms and direct facts guaranteed on every path from entry to CFG node `node_id`"""
+        keys = {}
+        for nid, ats in self.atoms.items():
+            for e, pos in ats:
+                keys.setdefault((ast.dump(e), pos), [e, set()])[1].add(nid)
+        out = [(e, k[1]) for k, (e, ids) in keys.items()
+               if self._mp(ids, node_id)]
+        dk = {}
+        for nid, d in self.direct.items():
+            for subj, kinds in d.items():
+                for kind in kinds:
+                    dk.setdefault((subj, kind), set()).add(nid)
+        direct = {}
+        for (subj, kind), ids in dk.items():
+            if self._mp(ids, node_id):
+                direct.setdefault(subj, set()).add(kind)
+        return out, direct
+
     def exit_atoms(self):
         """atoms guaranteed on every path to the normal exit -> [(expr, polarity)] (deduplicated by text)"""
         out, seen = [], set()
@@ -263,7 +288,7 @@ class FunctionGuards:
                 if key in seen:
                     continue
                 ids = {n for n, aa in self.atoms.items() if any((ast.dump(x), p) == key for x, p in aa)}
-                if self.cfg.must_pass(lambda nd, ids=ids: nd.id in ids)[0]:
+                if self._mp(ids):
                     seen.add(key)
                     out.append((e, pos))
         return out
@@ -378,5 +403,95 @@ class FunctionGuards:
                 out[nid] = rels
         return out
 
+    def _mp(self, ids, dst=None):
+        if self.cfg.entry.id in ids:
+            return True  # established by every caller before the function is entered
+        return self.cfg.must_pass(lambda nd: nd.id in ids, dst=dst)[0]
+
     def guaranteed(self, pred_ids, dsts):
+        if self.cfg.entry.id in pred_ids:
+            return True
         return all(self.cfg.must_pass(lambda nd: nd.id in pred_ids, dst=d)[0] for d in dsts)
+
+
+# ----------------------------------------------------------------------------
+# guards established by the callers of a helper (guard in caller, native call in helper)
+# ----------------------------------------------------------------------------
+class _ArgToParam(ast.NodeTransformer):
+    def __init__(self, by_text):
+        self.by_text = by_text
+
+    def generic_visit(self, node):
+        if isinstance(node, ast.expr):
+            try:
+                t = ast.unparse(node)
+            except Exception:
+                t = None
+            if t in self.by_text:
+                return ast.Name(self.by_text[t], ast.Load())
+        return super().generic_visit(node)
+
+
+def caller_context(module_ast, helper, resolver, cache=None):
+    """Facts that *every* call of `helper` inside its module guarantees at the call, translated into the
+    helper's parameter names -> (atoms, direct) ; ([], {}) when the helper is not called in the module."""
+    cache = cache if cache is not None else {}
+    calls = []
+    cls = pf.enclosing_class(helper)
+    for n in ast.walk(module_ast):
+        if not isinstance(n, ast.Call):
+            continue
+        f = n.func
+        hit = False
+        if isinstance(f, ast.Name) and f.id == helper.name and cls is None:
+            hit = True
+        elif isinstance(f, ast.Attribute) and f.attr == helper.name and cls is not None \
+                and isinstance(f.value, ast.Name) and (f.value.id in ("self", "cls") or f.value.id == cls.name):
+            hit = True
+        if hit:
+            r = resolver.resolve(n, pf.enclosing_func(n)) if pf.enclosing_func(n) is not None else None
+            if r is not None and r[0] is helper:
+                calls.append((n, r[1]))
+    calls = [(c, ps) for c, ps in calls if pf.enclosing_func(c) is not helper]
+    if not calls:
+        return [], {}
+    common_atoms, common_direct = None, None
+    for call, params in calls:
+        caller = pf.enclosing_func(call)
+        key = id(caller)
+        if key not in cache:
+            cache[key] = FunctionGuards(caller, resolver)
+        fg = cache[key]
+        nd = fg.cfg.stmt_of_expr(call)
+        if nd is None:
+            return [], {}
+        by_text = {}
+        for i, a in enumerate(call.args):
+            if isinstance(a, ast.Starred) or i >= len(params):
+                break
+            by_text[ast.unparse(a)] = params[i]
+        for k in call.keywords:
+            if k.arg:
+                by_text[ast.unparse(k.value)] = k.arg
+        ats, direct = fg.atoms_at(nd.id)
+        caller_locals = {n.id for n in ast.walk(caller) if isinstance(n, ast.Name) and isinstance(n.ctx, ast.Store)}
+        caller_locals |= {a.arg for a in caller.args.args + caller.args.kwonlyargs}
+        t_atoms = {}
+        for e, pos in ats:
+            e2 = _ArgToParam(by_text).visit(_fresh(e))
+            names = {n.id for n in ast.walk(e2) if isinstance(n, ast.Name)}
+            if not names & set(by_text.values()):
+                continue
+            if (names - set(by_text.values()) - {"self", "cls"}) & caller_locals:
+                continue
+            t_atoms[(ast.dump(e2), pos)] = (e2, pos)
+        t_direct = {}
+        for subj, kinds in direct.items():
+            if subj in by_text:
+                t_direct[by_text[subj]] = set(kinds)
+        if common_atoms is None:
+            common_atoms, common_direct = t_atoms, t_direct
+        else:
+            common_atoms = {k: v for k, v in common_atoms.items() if k in t_atoms}
+            common_direct = {k: v & t_direct.get(k, set()) for k, v in common_direct.items() if k in t_direct}
+    return list(common_atoms.values()), {k: v for k, v in (common_direct or {}).items() if v}
